@@ -12,7 +12,7 @@ var hookOpts = []string{"before", "beforectx", "after", "afterctx", "obs"}
 var otherOpts = []string{"panic", "perr", "timeout", "batch", "substore", "upcast", "upcastself"}
 
 func genVal(t *rapid.T) Val {
-	v := Val{Shape: rapid.SampledFrom([]string{"plain", "plain", "ptr", "named", "namedptr", "namedvalptr", "envelope", "envelope", "ptrmarsh", "ptrmarshptr", "holder", "mutenv"}).Draw(t, "shape")}
+	v := Val{Shape: rapid.SampledFrom([]string{"plain", "plain", "ptr", "named", "namedptr", "namedvalptr", "envelope", "envelope", "ptrmarsh", "ptrmarshptr", "holder", "mutenv", "kindev"}).Draw(t, "shape")}
 	v.S = rapid.OneOf(rapid.SampledFrom([]string{"", "x", "héllo", "日本語", " ", "<tag>&", "quote\"\\", "\x00ctl"}), rapid.StringN(0, 6, 20)).Draw(t, "s")
 	v.F = rapid.OneOf(rapid.SampledFrom([]float64{0, -0.0, 1, 0.1, 1e308, 5e-324, -1.5e-10, math.MaxFloat64, 123456789.123456789}), rapid.Float64()).Draw(t, "f")
 	if math.IsNaN(v.F) || math.IsInf(v.F, 0) {
